@@ -74,11 +74,11 @@ let log_s = function LAdded -> "added" | LUpdated -> "updated" | LSkipped -> "sk
 let wkind_s = function WCreate -> "create" | WAppend -> "append" | WRewrite -> "rewrite" | WRemove -> "remove"
 let list_s f l = match l with [] -> "-" | _ -> String.concat "," (List.map f l)
 
-let print_obs (i : int) (o : obs) =
-  Printf.printf "obs %d outcome=%s errors=%d logs=%s path=%s id=%s line=%d writes=%s\n" i
+let print_obs ?(jpre = "*") (i : int) (o : obs) =
+  Printf.printf "obs %d outcome=%s errors=%d logs=%s path=%s id=%s line=%d writes=%s jpre=%s\n" i
     (outcome_s o.o_outcome) (int_of_nat o.o_errors) (list_s log_s o.o_logs)
     (hex o.o_path) (hex o.o_id) (int_of_nat o.o_line)
-    (list_s (fun (k, p) -> wkind_s k ^ ":" ^ hex p) o.o_writes)
+    (list_s (fun (k, p) -> wkind_s k ^ ":" ^ hex p) o.o_writes) jpre
 
 let print_fs (i : int) (s : state) =
   let l = List.map (fun (p, c) -> (hex p, hex c)) s.s_fs in
